@@ -199,6 +199,11 @@ class Gen:
                 d["attrs"].append("save")
             if where in ("module",) and not d["parameter"] and ch.bool(1, 10):
                 d["attrs"].append("volatile")
+            if where == "module" and not d["parameter"] and len(names) == 1 and ts["base"] in ("integer", "real") \
+                    and not ts.get("kind") and not any(a in d["attrs"] for a in ("allocatable", "pointer")) \
+                    and "bind_name" not in self.cfg.get("excl", ()) and ch.bool(1, 8):
+                # a C binding label: a character literal inside an attribute
+                d["attrs"].append(f'bind(c, name="Cname_{names[0]}")')
             if where == "module" and self.cfg["access"]:
                 d["access"] = ch.weighted([(5, None), (2, "public"), (2, "private")] +
                                           ([(2, "protected")] if not d["parameter"] else []))
